@@ -67,12 +67,21 @@ if TYPE_CHECKING:
 
 _section_kind = {
     "deprecated": DocstringSectionKind.deprecated,
+    "args": DocstringSectionKind.parameters,
+    "arguments": DocstringSectionKind.parameters,
+    "params": DocstringSectionKind.parameters,
     "parameters": DocstringSectionKind.parameters,
+    "keyword args": DocstringSectionKind.other_parameters,
+    "keyword arguments": DocstringSectionKind.other_parameters,
+    "other args": DocstringSectionKind.other_parameters,
+    "other arguments": DocstringSectionKind.other_parameters,
+    "other params": DocstringSectionKind.other_parameters,
     "other parameters": DocstringSectionKind.other_parameters,
     "returns": DocstringSectionKind.returns,
     "yields": DocstringSectionKind.yields,
     "receives": DocstringSectionKind.receives,
     "raises": DocstringSectionKind.raises,
+    "exceptions": DocstringSectionKind.raises,
     "warns": DocstringSectionKind.warns,
     "examples": DocstringSectionKind.examples,
     "attributes": DocstringSectionKind.attributes,
